@@ -511,4 +511,66 @@ theorem typeDecl_blames (p : String) (env : Env) (s : Schema) (t : TypeDecl) (d 
         · simp only [List.mem_singleton] at h; subst h; exact ⟨n, l, rfl, rfl⟩
         · simp at h
 
+/-- **WRONG_ARG_COUNT quotes the number of arguments the call is written with and the number of parameters of the function**, on the
+    line of the call — whatever happens to the arguments when they are resolved -/
+theorem callCount_blames (p : String) (s : Schema) (r : Rule) (fn : String) (argc : Nat) (d : Diag)
+    (h : d ∈ callDiags p s r fn argc) (hc : d.code = LibErrors.WRONG_ARG_COUNT) :
+    d.line = r.line ∧ ∃ (name : String) (k : Nat), d.args = [sArg name, .int argc, .int k] ∧ k ≠ argc ∧
+      ((∃ fd, findFunc s fn = some fd ∧ k = fd.nparams ∧ name = fn) ∨ (findFunc s fn = none ∧ builtinArity fn = some k ∧ name = fn.toUpper)) := by
+  simp only [callDiags] at h
+  cases hf : findFunc s fn with
+  | some fd =>
+    rw [hf] at h
+    simp only at h
+    split at h
+    · simp at h
+    · next hne =>
+      simp only [List.mem_singleton] at h; subst h
+      exact ⟨rfl, fn, fd.nparams, rfl, hne, Or.inl ⟨fd, rfl, rfl, rfl⟩⟩
+  | none =>
+    rw [hf] at h
+    simp only at h
+    cases hb : builtinArity fn with
+    | some n =>
+      rw [hb] at h
+      simp only at h
+      split at h
+      · simp at h
+      · next hne =>
+        simp only [List.mem_singleton] at h; subst h
+        exact ⟨rfl, fn.toUpper, n, rfl, hne, Or.inr ⟨rfl, rfl, rfl⟩⟩
+    | none =>
+      rw [hb] at h
+      simp only [missingSelf, List.mem_cons] at h
+      rcases h with h | h
+      · subst h
+        have hne : LibErrors.UNDEFINED_FUNC ≠ LibErrors.WRONG_ARG_COUNT := by decide
+        exact absurd hc hne
+      · split at h
+        · simp only [List.mem_singleton] at h; subst h
+          have hne : LibErrors.MISSING_SELF ≠ LibErrors.WRONG_ARG_COUNT := by decide
+          exact absurd hc hne
+        · simp at h
+
+/-- the count check of a call with an argument list is the check for the number of arguments WRITTEN: it does not depend on
+    which of them resolve -/
+theorem callWith_count (p : String) (env : Env) (s : Schema) (fuel : Nat) (e : Entity) (r : Rule) (fn : String)
+    (args : List CallArg) (d : Diag) (h : d ∈ callDiags p s r fn args.length) : d ∈ callWithDiags p env s fuel e r fn args := by
+  simp only [callWithDiags]
+  split
+  · exact List.mem_append_left _ (List.mem_append_left _ h)
+  · exact h
+
+/-- **the first argument that fails to resolve is the one that is reported, and the only one**: the walk over the arguments stops
+    there -/
+theorem argsRun_first_failure (diagsOf : CallArg → List Diag) (sees : CallArg → Bool) (pre : List CallArg) (a : CallArg)
+    (post : List CallArg) (hpre : ∀ x ∈ pre, hasError (diagsOf x) = false) (ha : hasError (diagsOf a) = true) :
+    (argsRun diagsOf sees (pre ++ a :: post)).1 = pre.flatMap diagsOf ++ diagsOf a := by
+  induction pre with
+  | nil => simp [argsRun, ha]
+  | cons x xs ih =>
+    have hx := hpre x (List.mem_cons_self ..)
+    simp only [List.cons_append, argsRun, hx, Bool.false_eq_true, if_false, List.flatMap_cons, List.append_assoc]
+    rw [ih (fun y hy => hpre y (List.mem_cons_of_mem _ hy))]
+
 end StepModel.Express.Resolve
